@@ -1,0 +1,47 @@
+//go:build verif
+
+package kafka
+
+import (
+	"context"
+
+	"github.com/twmb/franz-go/pkg/kgo"
+)
+
+// Verification-only handles on a plugin that went through the real Start (property C10, build
+// tag `verif`): the rebalance callbacks, the per-partition consume loops Start's consumer set
+// owns, the client. Nothing here assigns topic ids or builds plugin state itself.
+
+// VerifAssigned runs the real OnPartitionsAssigned callback of the started plugin.
+func VerifAssigned(p *Plugin, assigned map[string][]int32) {
+	p.s.Assigned(context.Background(), p.client, assigned)
+}
+
+// VerifLost runs the real OnPartitionsLost / Revoked callback (stops the consume loops).
+func VerifLost(p *Plugin, lost map[string][]int32) {
+	p.s.Lost(context.Background(), p.client, lost)
+}
+
+// VerifFeedStarted hands one fetch to the consume loop that Assigned created for the
+// topic/partition; false when there is no such loop.
+func VerifFeedStarted(p *Plugin, topic string, partition int32, records []*kgo.Record) bool {
+	pc, ok := p.s.consumers[tp{topic, partition}]
+	if !ok {
+		return false
+	}
+	pc.fetches <- kgo.FetchTopicPartition{
+		Topic:          topic,
+		FetchPartition: kgo.FetchPartition{Partition: partition, Records: records},
+	}
+	return true
+}
+
+// VerifClient returns the client Start created.
+func VerifClient(p *Plugin) *kgo.Client { return p.client }
+
+// VerifShutdown ends the poll loop and closes the client without the final synchronous
+// offset commit of Stop (there is no group coordinator to talk to).
+func VerifShutdown(p *Plugin) {
+	p.cancel()
+	p.client.Close()
+}
